@@ -94,6 +94,12 @@ PIPELINES = {
         ],
         "min_events": 100,
     },
+    "secrets": {
+        "variants": ["ring", "awslc"],
+        "mc": [{"module": "MC_Secrets", "workers": 2, "emits": False}],
+        "drivers": [{"name": "all", "cmd": ["secrets", "{out}", "{tier}"], "chunk": 100000, "random": True, "require_cov": ["channelsMissing=0"]}],
+        "min_events": 100,
+    },
     "csrparse": {
         "variants": ["ring"],
         "mc": [{"module": "MC_CsrParse", "workers": 4, "emits": False}],
@@ -202,6 +208,9 @@ PROPS = {
     "C03": _p("model_checking", ["import", "cert"], ["C03."],
               "MC_Import.Cases: issuer names = all RDN sequences of 0..2 (quick) / 0..3 (thorough) attributes over 6 types with repetition x string kinds, 4x4 key-identifier methods, 6x(2|6) key algorithms, SKI present/absent; issuer origin in {rcgen direct, rcgen imported via DER/PEM, OpenSSL-generated imported via DER/PEM}; each chain leaf -> original CA judged by OpenSSL and webpki; plus the issuer-name clause on every issuer-signed certificate of MC_Cert",
               ops=["ImportCa", "Chain", "Cert"], exhaustive=True),
+    "C19": _p("exploration", ["secrets"], ["C19."],
+              "every output channel of Secrets!Channels (artefact DER/PEM, public key exports, Debug renderings of 9 types, Display/Debug of errors from truncated / corrupted / mislabelled / legacy-labelled / misfitting key loads through every loader and from key material offered to the certificate, CSR and SPKI parsers, key-then-certificate bundles) x key algorithm (Ed25519, P-256, P-384, RSA-2048, P-521 under aws-lc-rs) x back end x loading path; each channel searched for every 12-byte window of the private scalar / seed / RSA d, p, q, dP, dQ, qInv in raw, hex (any case, separators, both nibble alignments), decimal-list and base64 (4 alignments, both alphabets) form; the export functions must be found to contain the key (non-vacuity of the search); coverage predicate: every channel seen; distinct by (channel, algorithm, back end, loading path)",
+              ops=["Channel"], exhaustive=False),
     "C20": _p("model_checking", ["dn"], ["C20."],
               "cases = every sequence of exactly MaxOps (4 quick / 5 thorough) push/remove operations over 3-4 attribute types x 2 values (MC_Names.Histories), each followed by equality probes against freshly built names (same enumeration, proper prefix, reversed, last value changed) and by issuing a certificate whose subject is decoded; plus random walks of length 200 over 10 types and 6 value kinds; distinct by (operation, arguments) event",
               ops=["DnPush", "DnRemove", "DnEq", "DnEncode"], exhaustive=False),
